@@ -228,9 +228,24 @@ def run_fault_case(desc, weak_only=False):
         # a table glued together from parts without ignore_index: the integer row labels repeat
         k_ = max(1, len(df) // 2)
         df.index = list(range(k_)) + list(range(len(df) - k_))
+    noheader = bool(desc.get("noheader"))
+    if noheader:
+        # a table without a header line, read the default way: the first data row ends up as the column names
+        if records[0][1] is None:
+            raise Discard("first row has an empty value: no usable column name")
+        if records[0][0][letters[0]] not in build.uitems(U)[letters[0]]:
+            raise Discard("first row starts with something that is no item: it IS a header line")
+        with tempfile.TemporaryDirectory(prefix="verif_c12_") as tmp0:
+            df, _ = frames.through_csv(df, tmp0, header=False)
     df_before = df.copy(deep=True)
     am, ae = desc["allow_missing"], desc["allow_extra"]
     verdict, detail = contract(U, letters, [(l, v) for l, v in records], structural, am, ae)
+    if noheader and verdict == "ok":
+        # dimensions are identified through their items only: the acceptance side is asserted when every
+        # column (first row included) holds exactly the dimension's items; refusals are asserted always
+        its = build.uitems(U)
+        if not all({lab[l] for lab, _ in records} == set(its[l]) for l in letters):
+            verdict, detail = "unasserted", "item-identified column does not hold exactly the dimension's items"
     if unasserted and am:
         verdict, detail = "unasserted", "dropped item column of a wide frame under allow_missing_values"
     elif unasserted:
@@ -243,7 +258,9 @@ def run_fault_case(desc, weak_only=False):
         res, err = call_import(desc, U, letters, df, tmp)
     if not (df.equals(df_before) and list(df.columns) == list(df_before.columns) and df.index.equals(df_before.index)):
         raise Violation("import-modified-input-frame", f"columns {list(df_before.columns)} -> {list(df.columns)}")
-    cl = fault_classes(desc) + [f"expect:{verdict}"] + (["repeated-row-labels"] if desc.get("dup_index") else [])
+    cl = fault_classes(desc) + [f"expect:{verdict}"] + (["repeated-row-labels"] if desc.get("dup_index") else []) + (["no-header-line"] if noheader else [])
+    if noheader and any(f["kind"] == "dup_row" and f["pos"] % max(1, len(records)) == 0 for f in desc["faults"]):
+        cl.append("no-header-line:first-row-duplicated")
     ctx = f"faults {[(f['kind'], f['pos']) for f in desc['faults']]} flags missing={am} extra={ae} entry={desc['entry']} layout wide={layout.get('wide')} index={layout.get('index')} dims {letters}"
     items = build.uitems(U)
     # weak clause of C11: whatever is returned, every non-zero entry comes from the unique row with those labels
@@ -307,12 +324,36 @@ def base_frames(draw, max_dims=3, max_len=3, header_styles=("name", "letter"), k
 
 @st.composite
 def fault_cases(draw, max_faults=2):
-    U, letters, layout = draw(base_frames())
+    noheader = draw(st.integers(0, 7)) == 0
+    if noheader:
+        # long table without a header line; row-level faults only, the first row being the interesting one
+        U = draw(gen.universes(min_dims=1, max_dims=3, max_len=3, kinds=("str", "int")))
+        letters = list(draw(st.permutations(gen.uletters(U))))
+        layout = {"wide": None, "index": [], "header": {l: "junk" for l in letters}, "value_col": "value", "col_order": None, "drop_single": []}
+        pool = ["dup_row", "dup_row", "dup_row", "drop_row", "drop_row", "blank", "relabel", "relabel_known", "swap_labels"]
+    else:
+        U, letters, layout = draw(base_frames())
+        pool = FAULT_KINDS + ["drop_row", "drop_row", "dup_row", "dup_row", "relabel", "blank"]
     n = draw(st.integers(0, max_faults))
     faults = []
     for _ in range(n):
-        k = draw(st.sampled_from(FAULT_KINDS + ["drop_row", "drop_row", "dup_row", "dup_row", "relabel", "blank"]))
-        faults.append({"kind": k, "pos": draw(st.integers(0, 40)), "pos2": draw(st.integers(0, 40)), "dim": draw(st.integers(0, 5)), "other_value": draw(st.booleans())})
+        k = draw(st.sampled_from(pool))
+        pos = draw(st.integers(0, 40))
+        if noheader and k == "dup_row" and draw(st.booleans()):
+            pos = 0
+        faults.append({"kind": k, "pos": pos, "pos2": draw(st.integers(0, 40)), "dim": draw(st.integers(0, 5)), "other_value": draw(st.booleans())})
+    if noheader:
+        return {
+            "universe": U,
+            "letters": letters,
+            "layout": layout,
+            "faults": faults,
+            "allow_missing": draw(st.booleans()),
+            "allow_extra": draw(st.booleans()),
+            "entry": draw(st.sampled_from(["from_df", "set_values_from_df", "csv", "excel"])),
+            "dup_index": False,
+            "noheader": True,
+        }
     return {
         "universe": U,
         "letters": letters,
